@@ -1,4 +1,5 @@
 import OvniModel.Rt.Buffer
+import OvniModel.Rt.Mark
 import OvniModel.Generated.Consts
 import Drivers.Util
 namespace Drivers.Rt
@@ -54,8 +55,7 @@ def parseOp (ws : List String) : Option (Op Pat) :=
   | "rank" :: _ => some .metaOp
   | "attr" :: _ => some .metaOp
   | ["attrflush"] => some .metaOp
-  | "marktype" :: _ => some .metaOp
-  | "marklabel" :: _ => some .metaOp
+
   | _ => none
 
 /-- Canonical record: full bytes (from the model's own `encode`) when small,
@@ -68,26 +68,63 @@ def showRec (r : Rec Pat × Origin) : String :=
     if d.len ≤ 600 then s!"X{o}:{Drivers.toHex r.1.encode}"
     else s!"B{o}:{Drivers.toHex (headerBytes e ++ le 4 d.len)}:{d.len}:{d.fill % 256}:{Drivers.toHex ((d.pre.take d.len).map (· % 256))}"
 
+/-- driver-level operation: a buffer operation or a mark-metadata call -/
+inductive DOp where
+  | buf (op : Op Pat)
+  | markType (t : Int) (flags : Nat) (title : String)
+  | markLabel (t : Int) (v : Int) (label : String)
+
+def bytesToString (bs : List Nat) : String := String.ofList (bs.map Char.ofNat)
+
+def parseDOp (ws : List String) : Option DOp :=
+  match ws with
+  | ["marktype", t, f, title] =>
+    match t.toInt?, f.toNat?, Drivers.hexBytes title with
+    | some t, some f, some b => some (.markType t f (bytesToString b))
+    | _, _, _ => none
+  | ["marklabel", t, v, label] =>
+    match t.toInt?, v.toInt?, Drivers.hexBytes label with
+    | some t, some v, some b => some (.markLabel t v (bytesToString b))
+    | _, _, _ => none
+  | _ => (parseOp ws).map .buf
+
 /-- run ops; report index of dying op -/
-def runIdx (cap : Nat) (s : St Pat) (ops : List (Op Pat)) (i : Nat) : St Pat × Option Nat :=
+def runIdx (cap : Nat) (s : St Pat) (mk : Ovni.Rt.Mark.Meta) (ops : List DOp) (i : Nat) :
+    St Pat × Ovni.Rt.Mark.Meta × Option Nat :=
   match ops with
-  | [] => (s, none)
-  | op :: r => match step cap s op with
-    | none => (s, some i)
-    | some s' => runIdx cap s' r (i + 1)
+  | [] => (s, mk, none)
+  | .buf op :: r => match step cap s op with
+    | none => (s, mk, some i)
+    | some s' => runIdx cap s' mk r (i + 1)
+  | .markType t f title :: r =>
+    -- get_thread_metadata: finished / not ready die
+    if !s.ready then (s, mk, some i) else
+    match Ovni.Rt.Mark.markType mk t f title with
+    | none => (s, mk, some i)
+    | some mk' => runIdx cap s mk' r (i + 1)
+  | .markLabel t v label :: r =>
+    if !s.ready then (s, mk, some i) else
+    match Ovni.Rt.Mark.markLabel mk t v label with
+    | none => (s, mk, some i)
+    | some mk' => runIdx cap s mk' r (i + 1)
+
+def showMarks (mk : Ovni.Rt.Mark.Meta) : String :=
+  if mk.isEmpty then "-" else
+  "|".intercalate (mk.map fun td =>
+    let ls := ",".intercalate (td.labels.map fun (v, l) => s!"{v}={Drivers.toHex (l.toList.map Char.toNat)}")
+    s!"{td.type}:{Drivers.toHex (td.title.toList.map Char.toNat)}:{if td.stack then "stack" else "single"}:{ls}")
 
 def script (line : List String) : String :=
-  -- split on ";"
   let ops := (Drivers.splitTok ";" line).filter (fun l => !l.isEmpty)
-  match ops.mapM parseOp with
+  match ops.mapM parseDOp with
   | none => "bad-op"
   | some ops =>
     let init : St Pat := { now := 1000, tick := 1 }
-    let (s, died) := runIdx Ovni.Generated.maxEvBuf init ops 0
+    let (s, mk, died) := runIdx Ovni.Generated.maxEvBuf init [] ops 0
     let oc := match died with
       | none => "returned"
       | some i => s!"die@{i}"
     let recs := ",".intercalate (s.disk.map showRec)
-    s!"{oc} nflush={s.nflush} hdr={if s.hdrOnDisk then 1 else 0} stream={recs}"
+    s!"{oc} nflush={s.nflush} hdr={if s.hdrOnDisk then 1 else 0} marks={showMarks mk} stream={recs}"
 
 end Drivers.Rt
